@@ -549,7 +549,8 @@ def gen_hold_case(rng, focus=None):
         t += max(64, g)
     # sometimes a time-trigger occurrence well away from every boundary
     if rng.random() < 0.25:
-        w = base_us + tick_us(ops[-1]["t"]) + rng.randrange(hold_us := tick_us(hold) * 3, hold_us * 2 + 1 + hold_us)
+        hold_us = tick_us(hold)
+        w = base_us + tick_us(ops[-1]["t"]) + rng.randrange(3 * hold_us, 9 * hold_us + 1)
         ops.append({"k": "time", "w": w, "t": (w - base_us) * TICK // SEC, "exact": True})
     ops = finish_state(rng, ops, None)
     # guards: a state_active that flips with y (exercises "last ACCEPTED"), windows that are mostly open
@@ -621,6 +622,8 @@ def occurrences(case):
     y = None
     occs = []
     ops = case["ops"]
+    x_watched = any(o["k"] == "state" for o in ops) or "state" in case.get("extra_trig", [])
+    y_watched = bool(case.get("y_watched"))
     i = 0
     while i < len(ops):
         j = i + 1
@@ -639,8 +642,9 @@ def occurrences(case):
                 trig = [(0, op["v"]), (10, x)]
                 x = op["v"]
             pend.append([k, op["t"], wall, trig, bool(op.get("exact")) and len(group) == 1])
+        last = ([(0, x)] if x_watched and x is not None else []) + ([(1, y)] if y_watched and y is not None else [])
         for k, t, wall, trig, ex in pend:
-            occs.append({"kind": k, "mono": t, "wall": wall, "trig": trig, "cur": [(0, x), (1, y), (2, None)], "exact": ex})
+            occs.append({"kind": k, "mono": t, "wall": wall, "trig": trig, "last": last, "cur": [(0, x), (1, y), (2, None)], "exact": ex})
         i = j
     return occs
 
@@ -676,9 +680,8 @@ def _q_spec(s):
     if "cron" in s:
         f = s["cron"]
         sets = [cron_expand(x, lo, hi) for x, (lo, hi) in zip(f, CRON_RANGES)]
-        names = ["c_min", "c_hour", "c_dom", "c_mon", "c_dow"]
-        body = "; ".join(f"{n} := {q.lst(q.Z(v) for v in vs)}" for n, vs in zip(names, sets))
-        w = f"(WCron {{| {body}; c_dom_star := {q.boolean(f[2] == '*')}; c_dow_star := {q.boolean(f[4] == '*')} |}})"
+        body = " ".join(q.lst(q.Z(v) for v in vs) for vs in sets)
+        w = f"(mk_cron {body} {q.boolean(f[2] == '*')} {q.boolean(f[4] == '*')})"
     else:
         a, b = s["range"]
         w = f"(WRange {_q_ep(a)} {_q_ep(b)})"
@@ -706,7 +709,7 @@ class GuardStream(Stream):
     check_spec = "gcase_spec_ok"
     attrib = "gcase_attrib pv_cfg"
     explain = "gcase_explain pv_cfg"
-    shard_size = 120
+    shard_size = 150
     gen_fn = None
     quick = 300
     thorough = 4000
@@ -730,30 +733,31 @@ class GuardStream(Stream):
         return [o for r in res for o in r]
 
     def prelude(self, ctx, findings, witness_terms):
-        return cfg_prelude([("d_time_active_per_arg", "D15"), ("d_hold_early_update", "D70")], findings, witness_terms, "gcase_spec_ok")
+        return cfg_prelude([("d_time_active_per_arg", "D15"), ("d_hold_early_update", "D70"), ("d_stale_active_vars", "D71")], findings, witness_terms, "gcase_spec_ok")
 
     def to_coq(self, case, obs):
         occs = occurrences(case)
         ta = case.get("ta")
-        g = ("{| g_sa := %s; g_ta := %s; g_hold := %s; g_ta_first := %s |}" % (
+        g = "(mk_guards %s %s %s %s)" % (
             q.option(_q_expr(case["sa"]) if case.get("sa") is not None else None),
             q.option(q.lst(_q_spec(s) for s in ta["specs"]) if ta is not None else None),
             q.option(q.Z(ta["hold"]) if ta is not None and ta.get("hold") is not None else None),
-            q.boolean(case.get("ta_first"))))
-        qo = q.lst("{| o_kind := %s; o_mono := %s; o_wall := %s; o_trig := %s; o_cur := %s |}" % (
-            KIND[o["kind"]], q.Z(o["mono"]), q.Z(o["wall"]), _q_env(o["trig"]), _q_env(o["cur"])) for o in occs)
+            q.boolean(case.get("ta_first")))
+        qo = q.lst("mk_occ %s %s %s %s %s %s %s" % (
+            KIND[o["kind"]], q.Z(o["mono"]), q.Z(o["wall"]), _q_env(o["trig"]), _q_env(o["last"]),
+            q.option(None if o["cur"][0][1] is None else q.N(o["cur"][0][1])),
+            q.option(None if o["cur"][1][1] is None else q.N(o["cur"][1][1]))) for o in occs)
         startup = obs.get("startup")
         if startup is None:
             startup = case["base_us"]
         seen = list(obs.get("seen", []))
         seen += [None] * (len(occs) - len(seen))
-        return ("{| gc_legacy := %s; gc_guards := %s; gc_startup := %s; gc_sun := %s; gc_occs := %s; gc_exact := %s; "
-                "gc_seen := %s; gc_runs := %s; gc_extra := %s |}" % (
-                    q.boolean(case["legacy"]), g, q.Z(startup),
-                    q.lst(f"({q.boolean(s)}, {q.Z(d)}, {q.Z(t)})" for s, d, t in obs.get("sun", [])), qo,
-                    q.lst(q.boolean(o["exact"]) for o in occs),
-                    q.lst(q.option(q.Z(s) if s is not None else None) for s in seen[: len(occs)]),
-                    q.lst(q.boolean(b) for b in obs.get("runs", [])), q.N(min(int(obs.get("extra", 0)), 999))))
+        return "(Build_gcase %s %s %s %s %s %s %s %s %s)" % (
+            q.boolean(case["legacy"]), g, q.Z(startup),
+            q.lst(f"({q.boolean(s)}, {q.Z(d)}, {q.Z(t)})" for s, d, t in obs.get("sun", [])), qo,
+            q.lst(q.boolean(o["exact"]) for o in occs),
+            q.lst(q.option(q.Z(s) if s is not None else None) for s in seen[: len(occs)]),
+            q.lst(q.boolean(b) for b in obs.get("runs", [])), q.N(min(int(obs.get("extra", 0)), 999)))
 
     def nontrivial(self, case, obs):
         runs = obs.get("runs", [])
@@ -785,17 +789,17 @@ class C07(Prop):
                     "now-relative, sunrise/sunset; with offsets) rendered to strings and given to @time_active of a function with "
                     "event/state/time triggers under both subsystems; occurrences placed at every resolved end point -1/0/+1 us, at "
                     "cron minute boundaries and at random instants up to 3 days ahead; non-trivial = at least two occurrences behind a "
-                    "guard; distinct by the whole case", gen_windows_case, 700, 8000),
+                    "guard; distinct by the whole case", gen_windows_case, 600, 8000),
         GuardStream("hold",
                     "hold_off in {0, None, 0.25 s .. 5 s} with consecutive occurrence gaps N-1, N, N+1 ticks (2^-20 s), N/2, 2N and random, "
                     "state_active flipping through an unwatched entity between occurrences (so 'last accepted' differs from 'last "
                     "occurrence'), both decorator orders, direct calls in between, event/state/time occurrences, both subsystems",
-                    gen_hold_case, 400, 5000),
+                    gen_hold_case, 300, 5000),
         GuardStream("stateactive",
                     "random state_active expressions (==, not, and, or) over the trigger variable, its .old, an unwatched entity (optionally "
                     "watched by another function) and a non-existent entity; state occurrences incl. two changes in the same instant, "
                     "event/time occurrences and direct calls; optional @time_active(hold_off=) without windows; both subsystems",
-                    gen_state_case, 400, 5000),
+                    gen_state_case, 300, 5000),
     ]
     trusted_base = [
         "modelled, not verified: timer_active_check on parsed specifications (Time/Windows.v), trigger_watch l.1284-1320 and "
